@@ -19,7 +19,7 @@ Definition allD (nb : nat) (X Y : list float) (cX : list Z) (eX : list float) (c
   let hi := lmax (A:=FloatA) [lmax X; lmax Y] in
   (edge_counts e X, edge_counts e Y, uni_counts lo hi nb X, uni_counts lo hi nb Y,
    psi_dist tiny nb X Y, hellinger_dist nb X Y, bhattacharyya_dist nb X Y, hi_dist nb X Y,
-   js_dist nb (cX, eX) (cY, eY) X Y, kl_dist nb (cX, eX) (cY, eY) X Y,
+   js_dist nb (cX, eX) (cY, eY), kl_dist nb (cX, eX) (cY, eY),
    emd_dist X Y, energy_dist X Y).
 """
 )
@@ -68,7 +68,7 @@ def impl_safe(ck, name, X, Y, nb, fam):
 
 
 def gen_pair(rng, big):
-    fam = rng.choice(["continuous", "continuous", "tied", "tied", "edges", "edges", "edges_ulp", "disjoint", "nested", "const_equal", "const_diff", "const_x", "const_y", "sizes"])
+    fam = rng.choice(["continuous", "continuous", "tied", "tied", "edges", "edges", "edges_ulp", "disjoint", "nested", "const_equal", "const_diff", "const_x", "const_y", "sizes", "replicated"])
     hi_n = 300 if big else 60
     n = rng.choice([1, 2, 3, 5, 8, 13, 21, 34, 55, hi_n])
     m = rng.choice([1, 2, 3, 5, 8, 13, 21, 34, 55, hi_n])
@@ -114,6 +114,12 @@ def gen_pair(rng, big):
         Y = [rng.uniform(4, 5) for _ in range(m)]
         if rng.random() < 0.5:
             X, Y = Y, X
+    elif fam == "replicated":
+        # the same empirical distribution with different multiplicities (JS / KL / EMD ~ 0)
+        base = [rng.choice([rng.gauss(0, 1), float(rng.randrange(5)), rng.uniform(0, 1)]) for _ in range(rng.choice([2, 3, 5, 8]))]
+        X = base * rng.choice([1, 2, 3])
+        Y = base * rng.choice([1, 2, 4, 7])
+        rng.shuffle(Y)
     elif fam == "const_equal":
         c = rng.choice([0.0, 1.5, -2.0, 1e6, 0.1])
         X, Y = [c] * n, [c] * m
@@ -206,11 +212,16 @@ def exact_masses(counts, edges, pts):
     return [Fs[i] - Fs[i - 1] for i in range(1, len(pts))]
 
 
-def textbook_prob(X, Y, nb, hX, hY):
+def textbook_prob(X, Y, nb, hX, hY, span="supports"):
     """JS distance and KL(test||reference) of the two auto-binned histogram distributions
-    discretised on nb points of the pooled range.  Returns (js, kl, near_tie)."""
-    lo = Fraction(min(min(X), min(Y)))
-    hi = Fraction(max(max(X), max(Y)))
+    discretised on nb points spanning both histogram supports (= the pooled sample range, except
+    that a constant sample c has the support [c - 1/2, c + 1/2]).  Returns (js, kl, near_tie, sP, sQ)."""
+    if span == "supports":
+        lo = min(Fraction(float(hX[1][0])), Fraction(float(hY[1][0])))
+        hi = max(Fraction(float(hX[1][-1])), Fraction(float(hY[1][-1])))
+    else:  # the pooled sample range: the discretisation before the repair 5e463cd (diagnosis only)
+        lo = Fraction(min(min(X), min(Y)))
+        hi = Fraction(max(max(X), max(Y)))
     pts = [lo + (hi - lo) * i / (nb - 1) for i in range(nb)]
     P = exact_masses(hX[0], hX[1], pts)
     Q = exact_masses(hY[0], hY[1], pts)
@@ -272,6 +283,10 @@ def agree(name, a, b, scale=1.0):
     if a is None or b is None:
         return False
     if math.isnan(a) or math.isnan(b):
+        if name == "JS" and not (math.isnan(a) and math.isnan(b)):
+            o = b if math.isnan(a) else a
+            if not math.isinf(o) and o * o < 1e-12:
+                return None  # sqrt of a rounding-level divergence: its sign is noise (near tie)
         return math.isnan(a) and math.isnan(b)
     if math.isinf(a) or math.isinf(b):
         return a == b
@@ -307,12 +322,13 @@ def input_class(X, Y):
 
 
 def nan_cause(name, X, Y, nb, hX, hY):
-    """Why a nan: classifies the input for the finding's signature (exact arithmetic)."""
+    """Why a nan: classifies the input for the finding's signature (exact arithmetic), in terms of
+    the discretisation over the pooled sample range that the code used before the repair 5e463cd."""
     if name != "JS":
         return "other"
     if min(min(X), min(Y)) == max(max(X), max(Y)):
         return "empty-pooled-range"
-    js, _, _, sP, sQ = textbook_prob(X, Y, nb, hX, hY)
+    js, _, _, sP, sQ = textbook_prob(X, Y, nb, hX, hY, span="pooled")
     if sP == 0 or sQ == 0:
         return "zero-mass-in-pooled-range"
     if not math.isnan(js) and js * js < 1e-12:
@@ -350,12 +366,12 @@ def check_axioms(ck, rng, fam, X, Y, nb, d, hX, hY):
                 ck.violation(dict(clause="self-zero", distance=name, input=ic), dict(what="d(X,X) != 0", distance=name, X=X, Y=X, num_bins=nb, value=s))
         # order of the samples' elements
         pv = impl_safe(ck, name, Xp, Yp, nb, fam)
-        if pv is not None and not agree(name, v, pv, scale):
+        if pv is not None and agree(name, v, pv, scale) is False:
             ck.violation(dict(clause="permutation", distance=name, input=ic), dict(what="distance depends on sample order", Xp=Xp, Yp=Yp, permuted=pv, **base))
         # symmetry
         if name != "KL":
             sv = impl_safe(ck, name, Y, X, nb, fam)
-            if sv is not None and not agree(name, v, sv, scale):
+            if sv is not None and agree(name, v, sv, scale) is False:
                 ck.violation(dict(clause="symmetry", distance=name, input=ic), dict(what="d(X,Y) != d(Y,X)", swapped=sv, **base))
     # affine maps
     a = rng.choice([-3.0, -1.0, 0.5, 2.0])
@@ -369,8 +385,13 @@ def check_axioms(ck, rng, fam, X, Y, nb, d, hX, hY):
         va = impl_safe(ck, name, Xa, Ya, nb, fam)
         if va is None:
             continue
-        tol = 1e-9 * max(1.0, abs(a) * scale + abs(b))
-        ok = abs(va * va - factor * factor * v * v) <= tol * tol + 1e-9 * va * va if name == "Energy" else abs(va - factor * v) <= tol + 1e-9 * abs(va)
+        # a*x+b moves every point by at most one rounding of magnitude |a|*scale+|b|; each of the
+        # n+m-1 gaps of the pooled order statistics changes by at most twice that
+        tol = 8 * (len(X) + len(Y)) * 2.3e-16 * (abs(a) * scale + abs(b) + 1.0)
+        if name == "Energy":
+            ok = abs(va * va - factor * factor * v * v) <= tol + 1e-9 * va * va
+        else:
+            ok = abs(va - factor * v) <= tol + 1e-9 * abs(va)
         if not ok:
             ck.violation(dict(clause="affine", distance=name, a_negative=a < 0), dict(what="d(aX+b, aY+b) != factor * d(X,Y)", distance=name, X=X, Y=Y, a=a, b=b, value=v, transformed=va, factor=factor))
 
@@ -438,7 +459,12 @@ def compare_model(ck, case, res):
         if d.get(name) is None:
             continue
         mv = model_val(res[4 + k])
-        if not agree(name, d[name], mv, scale if name in TRANSPORT else 1.0):
+        ag = agree(name, d[name], mv, scale if name in TRANSPORT else 1.0)
+        if ag is None:
+            ck.near_ties += 1
+            ck.count("js_sign_of_rounding_level_divergence_skipped")
+            continue
+        if not ag:
             ck.mismatch(f"{name} distance", dict(distance=name, X=X, Y=Y, num_bins=nb, family=fam, implementation=d[name], model=mv))
             return
 
@@ -485,6 +511,13 @@ def one_case(ck, fam, X, Y, nb):
     ucy = np.histogram(ya, bins=nb, range=rng_)[0]
     hXl = ([int(c) for c in hX[0]], [float(e) for e in hX[1]])
     hYl = ([int(c) for c in hY[0]], [float(e) for e in hY[1]])
+    if not skip:
+        # the contract `valid_hist` assumed of the oracle by the JS / KL theorems
+        for nm, (cs, es), n_ in (("reference", hXl, len(X)), ("test", hYl, len(Y))):
+            ok = len(es) == len(cs) + 1 and len(cs) >= 1 and all(a < b for a, b in zip(es, es[1:])) and all(c >= 0 for c in cs) and sum(cs) == n_
+            ok = ok and es[0] <= min(X if nm == "reference" else Y) and es[-1] >= max(X if nm == "reference" else Y)
+            if not ok:
+                ck.mismatch("oracle contract valid_hist (np.histogram auto)", dict(sample=nm, X=X, Y=Y, counts=cs, edges=es))
     return (fam, X, Y, nb, d, hXl, hYl, (ecx, ecy, [int(c) for c in ucx], [int(c) for c in ucy]))
 
 
@@ -492,15 +525,15 @@ def run(ck: Check):
     rng = ck.rng
     thorough = ck.tier == "thorough"
     ck.rule(
-        "sample pairs from 14 families (Gaussian continuous, heavily tied on 2-10 values, values exactly on exactly-representable bin edges, "
-        "values on NumPy's computed edges and their 1-ulp neighbours, disjoint / nested supports, both constant (equal / different), one constant, "
+        "sample pairs from 15 families (Gaussian continuous, heavily tied on 2-10 values, values exactly on exactly-representable bin edges, "
+        "values on NumPy's computed edges and their 1-ulp neighbours, disjoint / nested supports, both constant (equal / different), one constant, the same multiset replicated with different multiplicities, "
         "unequal sizes 1..60 (300 thorough)), num_bins in {2,3,5,10,17,64}; all 8 distances run through fit/compare; compared with the binary64 run of the "
         "Gallina model (bin counts exactly, distances 1e-9 rel, JS/energy on squares) and with textbook formulas computed in exact rational "
         "arithmetic for bin edges / CDF masses (skipped and counted when a value is within 1e-9 bin-widths of an interior edge without being "
         "exactly on a representable one); axioms (>= 0, d(X,X) = 0, order independence, symmetry, upper bounds, affine scaling with a in "
         "{-3,-1,.5,2}, b in {-7,0,3}) checked on the implementation's outputs; non-trivial = non-constant pair with 0 < Hellinger < 1"
     )
-    ncases = 2400 if thorough else 260
+    ncases = 3000 if thorough else 420
     cases = []
     for i in range(ncases):
         fam, X, Y, nb = gen_pair(rng, thorough and i % 10 == 0)
@@ -528,7 +561,7 @@ def main(tier, seed):
     ck.proof = check_props("C10")
     ck.assumptions = [
         "theorems are over R on the Gallina model; the binary64 run of the same model is compared with the code on every case (tolerance 1e-9; ln is the Gallina fln of Base/FloatA.v)",
-        "np.histogram(bins='auto') (bin count and edges of each sample) is an oracle input to the JS/KL model; the auto rule itself is not modelled",
+        "np.histogram(bins='auto') (counts and edges of each sample) is an oracle input to the JS/KL model with the contract valid_hist (len(edges) = len(counts)+1, strictly increasing edges, counts >= 0 summing to n > 0), re-checked on every case; the auto rule itself is not modelled; samples for which it asks for > 5000 bins (IQR of a few ulps) are not run through JS/KL",
         "np.sum is modelled as a left-to-right sum (NumPy sums pairwise); NaN inputs and empty samples are outside the model",
         "EMD / energy distance are SciPy calls: the model is the reference definition (_cdf_distance), the comparison validates the delegation",
     ]
